@@ -9,11 +9,13 @@ package verifsim
 // an index that answers every probe like the complete one. Nothing else.
 
 import (
+	"context"
 	"encoding/json"
 	"fmt"
 	"os"
 	"os/exec"
 	"strings"
+	"time"
 
 	"github.com/akrennmair/updog"
 	"github.com/akrennmair/updog/verifcli"
@@ -21,21 +23,22 @@ import (
 )
 
 type C06Case struct {
-	Data     Dataset `json:"data"`
-	Writer   string  `json:"writer"`  // mem-file | mem-db | big | cli | cli-big | kill | kill-big (real binary, SIGKILL at the N-th pwrite64)
-	Kills    []int   `json:"kills,omitempty"` // per-mille positions in the write sequence at which the real process is killed
-	FSize    []int   `json:"fsize,omitempty"` // kill tier: per-mille of the final output size at which the REAL binary meets its file size limit (RLIMIT_FSIZE: every write of the process beyond it fails with EFBIG, short)
-	TmpOther bool    `json:"tmp_other,omitempty"` // kill tier: TMPDIR of the child is on another file system (/dev/shm)
-	Large    bool    `json:"large,omitempty"` // several MiB of bitmaps (hundreds of thousands of distinct values): size thresholds of anything that batches by bytes
-	Samples  int     `json:"samples"` // sampled sub-commit crash images
-	WriteErr []WErr  `json:"write_errors"`
+	Data     Dataset  `json:"data"`
+	Writer   string   `json:"writer"`              // mem-file | mem-db | big | cli | cli-big | kill | kill-big (real binary, SIGKILL at the N-th pwrite64)
+	Kills    []int    `json:"kills,omitempty"`     // per-mille positions in the write sequence at which the real process is killed
+	FSize    []int    `json:"fsize,omitempty"`     // kill tier: per-mille of the final output size at which the REAL binary meets its file size limit (RLIMIT_FSIZE: every write of the process beyond it fails with EFBIG, short)
+	GdbCut   [][2]int `json:"gdb_cut,omitempty"`   // kill tier: {per-mille position among the data-writing system calls of the process, per-mille of the final output size}: from that call on the process has that file size limit and dies at its first SIGXFSZ (death in the middle of a write or copy)
+	TmpOther bool     `json:"tmp_other,omitempty"` // kill tier: TMPDIR of the child is on another file system (/dev/shm)
+	Large    bool     `json:"large,omitempty"`     // several MiB of bitmaps (hundreds of thousands of distinct values): size thresholds of anything that batches by bytes
+	Samples  int      `json:"samples"`             // sampled sub-commit crash images
+	WriteErr []WErr   `json:"write_errors"`
 	Queries  []*Query `json:"queries"`
 }
 
 type WErr struct {
-	At    int    `json:"at"`    // per-mille position in the write sequence of the output file
-	Kind  string `json:"kind"`  // eio | enospc
-	Short bool   `json:"short"` // a prefix of the buffer is written first
+	At    int    `json:"at"`             // per-mille position in the write sequence of the output file
+	Kind  string `json:"kind"`           // eio | enospc
+	Short bool   `json:"short"`          // a prefix of the buffer is written first
 	Temp  bool   `json:"temp,omitempty"` // the failing write is one of the big writer's TEMP database, not of the output
 }
 
@@ -47,7 +50,8 @@ func genC06(c *Ctx) any {
 	r := c.Rand("c06")
 	cs := &C06Case{}
 	cs.Writer = []string{"mem-file", "mem-file", "mem-db", "big", "cli", "cli-big"}[r.Intn(6)]
-	if r.Chance(1, 8) {
+	if r.Chance(1, 8) || os.Getenv("VERIF_C06_ONLY_KILL") != "" {
+		// (VERIF_C06_ONLY_KILL: focused exploration of the process tier; never set by a registered command)
 		// supplementary process tier: the real `updog create` killed by SIGKILL at a seeded write
 		cs.Writer = []string{"kill", "kill-big"}[r.Intn(2)]
 		for i, n := 0, r.Range(3, 6); i < n; i++ {
@@ -58,6 +62,21 @@ func genC06(c *Ctx) any {
 			cs.FSize = append(cs.FSize, r.Intn(1000))
 		}
 		cs.TmpOther = r.Chance(1, 3)
+		if rg := c.Rand("c06-gdb"); !cs.Large && rg.Chance(2, 3) {
+			for i, n := 0, rg.Range(1, 3); i < n; i++ {
+				k := rg.Intn(1001)
+				if rg.Chance(1, 2) {
+					k = 1000 - rg.Intn(3) // the last calls: where an index built elsewhere is published
+				}
+				cs.GdbCut = append(cs.GdbCut, [2]int{k, 1 + rg.Intn(999)})
+			}
+		}
+		if rg := c.Rand("c06-gdb-copy"); cs.TmpOther && !cs.Large {
+			// an index built under TMPDIR has to be copied to another file system: die inside that copy
+			for i := 0; i < 3; i++ {
+				cs.GdbCut = append(cs.GdbCut, [2]int{1000, 250*(i+1) + rg.Intn(240)})
+			}
+		}
 	}
 	// datasets on both sides of the 1000-value and 1000-row batches
 	vals := []int{0, 1, 5, 999, 1000, 1001, 2001, 3500}[r.Intn(8)]
@@ -620,6 +639,13 @@ func runC06Kill(c *Ctx, cs *C06Case, v *Verdict, rows []Row) *Verdict {
 			os.Remove(out)
 		}
 	}
+	if fi, err := os.Stat(full); err == nil && len(cs.GdbCut) > 0 {
+		imgs, hv := gdbCutRuns(c, v, cs, fi.Size(), mode, in)
+		if hv != nil {
+			return hv
+		}
+		images = append(images, imgs...)
+	}
 	bad, progress, res := recoverImages(c, v, images, ref, cs.Queries)
 	v.Count("images_checked", int64(len(images)))
 	if cs.Large {
@@ -642,4 +668,147 @@ func runC06Kill(c *Ctx, cs *C06Case, v *Verdict, rows []Row) *Verdict {
 		return v.Violate(bad.sig, "%s", bad.detail)
 	}
 	return v
+}
+
+// gdbCutScript drives the instrumented `updog` binary (same code, map order decided by the seed, so that the
+// sequence of system calls is a function of the case) under gdb: the process runs until just before its K-th
+// data-writing system call (write/pwrite64 of >= 512 bytes, sendfile, copy_file_range; counted over all
+// threads), then gets a file size limit and is killed at its first SIGXFSZ. What the kernel had written below
+// the limit stays: a process death in the MIDDLE of a write or of a file copy, which a SIGKILL placed between
+// two bbolt writes cannot produce. K=0 counts the calls.
+const gdbCutScript = `import gdb, os, subprocess
+K = int(os.environ.get("VERIF_GDB_K", "0"))
+LIMIT = int(os.environ.get("VERIF_GDB_LIMIT", "0"))
+for c in ("set pagination off", "set confirm off", "set print thread-events off", "set startup-with-shell off",
+          "handle SIGURG nostop noprint pass", "handle SIGPIPE nostop noprint pass", "handle SIGXFSZ stop nopass",
+          "catch syscall write pwrite64 sendfile copy_file_range",
+          ("condition 1 ($orig_rax == 1 || $orig_rax == 18) ? $rdx >= 512 : 1" if K >= 0 else
+           "condition 1 $orig_rax == 18 ? 0 : ($orig_rax == 1 ? $rdx >= 512 : 1)")):
+    gdb.execute(c)
+if K < 0:
+    K = -K  # the |K|-th data-moving call that is NOT a positioned page write: a copy of the finished file
+def alive():
+    return gdb.selected_inferior().pid != 0
+if K == 0:
+    gdb.execute("ignore 1 1000000000")
+    gdb.execute("run")
+    print("VERIF-GDB count=%d" % (gdb.breakpoints()[0].hit_count // 2))
+else:
+    if K > 1:
+        gdb.execute("ignore 1 %d" % (2 * (K - 1)))
+    gdb.execute("run")
+    if not alive():
+        print("VERIF-GDB exited-before-cut")
+    else:
+        subprocess.run(["prlimit", "--pid", str(gdb.selected_inferior().pid), "--fsize=%d:%d" % (LIMIT, LIMIT)], check=True)
+        gdb.execute("delete")
+        try:
+            gdb.execute("continue")
+        except gdb.error as e:
+            # the process went away while gdb was resuming it ("Couldn't get registers: No such process"):
+            # a death after the cut all the same, and what it left is judged like any other
+            print("VERIF-GDB died-after-cut")
+            gdb.execute("quit")
+        if alive():
+            try:
+                gdb.execute("kill")
+            except gdb.error as e:
+                pass
+            print("VERIF-GDB killed-at-limit")
+        else:
+            print("VERIF-GDB exited-after-cut")
+`
+
+func gdbRun(c *Ctx, script string, k int, limit int64, args ...string) (string, error) {
+	bin := os.Getenv("VERIF_UPDOG_SIM_BIN")
+	ctx, cancel := context.WithTimeout(context.Background(), 30*time.Second)
+	defer cancel()
+	cmd := exec.CommandContext(ctx, "gdb", append([]string{"-nx", "-q", "-batch", "-iex", "set auto-load off", "-x", script, "--args", bin}, args...)...)
+	tmp := c.Dir
+	if c.childTmp != "" {
+		tmp = c.childTmp
+	}
+	cmd.Env = append(os.Environ(), "TMPDIR="+tmp, fmt.Sprintf("VERIF_GDB_K=%d", k), fmt.Sprintf("VERIF_GDB_LIMIT=%d", limit))
+	out, err := cmd.CombinedOutput()
+	if ctx.Err() != nil {
+		return string(out), fmt.Errorf("gdb run timed out")
+	}
+	for _, line := range strings.Split(string(out), "\n") {
+		if strings.HasPrefix(line, "VERIF-GDB ") {
+			return strings.TrimSpace(line[len("VERIF-GDB "):]), nil
+		}
+	}
+	tail := string(out)
+	if len(tail) > 700 {
+		tail = tail[len(tail)-700:]
+	}
+	return tail, fmt.Errorf("gdb run gave no result line (%v)", err)
+}
+
+// gdbCutRuns returns the images left by the process deaths of cs.GdbCut, or a harness verdict.
+func gdbCutRuns(c *Ctx, v *Verdict, cs *C06Case, finalSize int64, mode []string, in string) ([]imageSpec, *Verdict) {
+	if _, err := exec.LookPath("gdb"); err != nil {
+		v.Count("gdb_unavailable", 1)
+		return nil, nil
+	}
+	if _, err := exec.LookPath("prlimit"); err != nil {
+		v.Count("gdb_unavailable", 1)
+		return nil, nil
+	}
+	script := c.Path("gdbcut.py")
+	if err := os.WriteFile(script, []byte(gdbCutScript), 0o644); err != nil {
+		return nil, v.Harness("gdb script: %v", err)
+	}
+	base := c.Path("gdb-base.updog")
+	res, err := gdbRun(c, script, 0, 0, append(append([]string{}, mode...), "-o", base, in)...)
+	os.Remove(base)
+	var nsys int
+	if err != nil && strings.Contains(err.Error(), "timed out") {
+		v.Count("gdb_run_too_slow_skipped", 1)
+		return nil, nil
+	}
+	if err != nil || !strings.HasPrefix(res, "count=") {
+		return nil, v.Harness("baseline run under gdb: %v: %s", err, clipStr(res, 400))
+	}
+	fmt.Sscanf(res, "count=%d", &nsys)
+	if nsys == 0 {
+		return nil, v.Harness("baseline run under gdb saw no data-writing system call")
+	}
+	var images []imageSpec
+	for gi, kl := range cs.GdbCut {
+		k := 1 + kl[0]*(nsys-1)/1000
+		if kl[0] >= 998 {
+			// the first, second or third data-moving call that is not a positioned page write (none in a tree that
+			// writes the index in place: the run ends undisturbed and leaves the complete file)
+			k = kl[0] - 1001
+		}
+		limit := 1 + int64(kl[1])*finalSize/1000
+		out := c.Path(fmt.Sprintf("gdbcut-%d.updog", gi))
+		res, err := gdbRun(c, script, k, limit, append(append([]string{}, mode...), "-o", out, in)...)
+		if err != nil && strings.Contains(err.Error(), "timed out") {
+			v.Count("gdb_run_too_slow_skipped", 1)
+			os.Remove(out)
+			break
+		}
+		if err != nil {
+			return nil, v.Harness("run under gdb (call %d of %d, limit %d): %v: %s", k, nsys, limit, err, clipStr(res, 800))
+		}
+		v.Count("fault_death_at_file_size_limit_runs", 1)
+		v.Count("gdb_"+strings.ReplaceAll(res, "-", "_"), 1)
+		if k < 0 && res == "killed-at-limit" {
+			v.Count("probe_death_inside_a_file_copy", 1)
+		}
+		b, rerr := os.ReadFile(out)
+		if rerr != nil {
+			v.Count("outcome_absent", 1)
+			continue
+		}
+		os.Remove(out)
+		if (res == "killed-at-limit" || res == "died-after-cut") && len(b) < 4*os.Getpagesize() {
+			v.Count("outcome_torn_bbolt_initialisation_not_judged", 1)
+			continue
+		}
+		images = append(images, imageSpec{name: fmt.Sprintf("`updog %s` given a file size limit of %d bytes before data-writing system call #%d of %d and killed at its first SIGXFSZ (%s)", strings.Join(mode, " "), limit, k, nsys, res), data: b, mid: res != "exited-before-cut" && res != "exited-after-cut"})
+	}
+	return images, nil
 }
